@@ -152,14 +152,11 @@ class BirthDeath(Distribution):
             + 4.0 * self.lambda_ * self.psi
         )
         B = ((1.0 - 2.0 * (1.0 - self.rho)) * self.lambda_ + self.mu + self.psi) / A
-        term = torch.exp(A * t) * (1.0 + B)
-        one_minus_Bi = 1.0 - B
-        p = (
-            self.lambda_
-            + self.mu
-            + self.psi
-            - A * (1.0 - 2.0 * one_minus_Bi / (term + one_minus_Bi))
-        ) / (2.0 * self.lambda_)
+        # (e^{At}(1+B) - (1-B)) / (e^{At}(1+B) + (1-B)) in terms of e^{-At}: no
+        # overflow (nor an infinite intermediate in the gradient) when A t is large
+        e = torch.exp(-A * t)
+        ratio = ((1.0 + B) - e * (1.0 - B)) / ((1.0 + B) + e * (1.0 - B))
+        p = (self.lambda_ + self.mu + self.psi - A * ratio) / (2.0 * self.lambda_)
         return p, A, B
 
     def log_prob(self, node_heights: torch.Tensor):
